@@ -18,7 +18,7 @@ fn outcome_event(defset: &str, variant: &str, o: &run::Outcome, asn: &str) -> Va
     w.sort();
     json!({"ev": "run", "defset": defset, "variant": variant, "status": o.status,
            "hash": h64(&o.generated), "whash": h64(&w.join("\n")), "nwarnings": w.len(),
-           "detail": format!("{}{}", o.error, o.panic_msg), "asn": asn})
+           "detail": format!("{}{}", o.error, o.panic_msg), "asn": asn, "shared_names": 0})
 }
 
 fn compile(srcs: &[String]) -> run::Outcome {
@@ -163,12 +163,33 @@ pub fn events_for_files(files: &[String], seed: u64) -> Vec<Value> {
         let (Ok(ta), Ok(tb)) = (std::fs::read_to_string(a), std::fs::read_to_string(b)) else { continue };
         let defset = format!("pair:{}+{}", a.rsplit('/').next().unwrap(), b.rsplit('/').next().unwrap());
         let o1 = compile(&[ta.clone(), tb.clone()]);
-        let o2 = compile(&[tb, ta]);
+        let o2 = compile(&[tb.clone(), ta.clone()]);
         if o1.status == "panic" || o2.status == "panic" {
             continue;
         }
-        evs.push(outcome_event(&defset, "a then b", &o1, &format!("-- {a} + {b}")));
-        evs.push(outcome_event(&defset, "b then a", &o2, ""));
+        // do the two files define a name in common?  (the word before ::=, and the word before a governing type before ::=)
+        let names = |t: &str| -> std::collections::BTreeSet<String> {
+            let toks = crate::drivers::c13::tokenize(t);
+            let mut out = std::collections::BTreeSet::new();
+            for (i, k) in toks.iter().enumerate() {
+                if &t[k.start..k.end] == "::=" {
+                    for back in 1..=2 {
+                        if i >= back && toks[i - back].class == "word" {
+                            out.insert(t[toks[i - back].start..toks[i - back].end].to_string());
+                        }
+                    }
+                }
+            }
+            out
+        };
+        let shared = names(&ta).intersection(&names(&tb)).filter(|n| !["INTEGER", "BOOLEAN", "IDENTIFIER", "STRING", "SEQUENCE", "CHOICE", "ENUMERATED", "SET", "NULL", "OF", "CLASS"].contains(&n.as_str())
+                                                             && !n.ends_with("String")).count();
+        let mut e1 = outcome_event(&defset, "a then b", &o1, &format!("-- {a} + {b}"));
+        let mut e2 = outcome_event(&defset, "b then a", &o2, "");
+        e1["shared_names"] = json!(shared);
+        e2["shared_names"] = json!(shared);
+        evs.push(e1);
+        evs.push(e2);
     }
     evs
 }
